@@ -65,7 +65,54 @@ class C19(F.Spec):
                                               b, k, tr[k] if k < len(tr) else None, traces[0][k] if k < len(traces[0]) else None)),
                                 ["boot %d" % b] + ops[1:]))
                     break
-        return 3 * n, nt, out
+        # button gestures (configuration button holds and toggles, plain buttons) with the wrap inside the gesture
+        from props.c12 import SPEC as C12
+        ev = 3 * n
+        for i in range(n):
+            case = C12.gen_buttons(rng, i)
+            ops = case.ops
+            total = sum(int(o.split()[1]) for o in ops if o.startswith("adv ")) * 1000
+            boots = [777, W - rng.randint(1000000, max(total, 1000001)), W - rng.randint(1000000, max(total, 1000001)) - rng.randint(0, 999)]
+            traces = []
+            for b in boots:
+                o2 = ["boot %d" % b] + ops
+                rc, lines, err = C.run_lines([exe], "\n".join(o2) + "\n")
+                ev += 1
+                if rc != 0:
+                    out.append((F.Finding("crash", "rc=%s %s" % (rc, err[-600:])), o2))
+                    traces = None
+                    break
+                traces.append([x for x in lines if x.startswith(("GPIO ", "TRIGFIRE ", "SETRELAY ", "CHG CfgMode", "FACTORYHOOK", "RESTART", "CHG RelayState"))])
+            if not traces:
+                continue
+            if traces[0]:
+                nt += 1
+            for b, tr in zip(boots[1:], traces[1:]):
+                if tr != traces[0]:
+                    k = next((j for j in range(min(len(tr), len(traces[0]))) if tr[j] != traces[0][j]), min(len(tr), len(traces[0])))
+                    out.append((F.Finding("boot-dependent-behaviour",
+                                          "button gesture: trace with boot=%d differs from boot=777 at event %d: %s vs %s" % (
+                                              b, k, tr[k] if k < len(tr) else None, traces[0][k] if k < len(traces[0]) else None)),
+                                ["boot %d" % b] + ops))
+                    break
+            if out:
+                break
+        return ev, nt, out
+
+    def extra_replay(self, ops):
+        """a replayed scenario is compared with the same scenario at boot value 777"""
+        exe = C.build_driver("drv_dev", "cfg")
+        tr = []
+        for o2 in (ops, ["boot 777"] + [o for o in ops if not o.startswith("boot ")]):
+            rc, lines, err = C.run_lines([exe], "\n".join(o2) + "\n")
+            if rc != 0:
+                return [F.Finding("crash", "rc=%s %s" % (rc, err[-600:]))]
+            tr.append([x for x in lines if x.startswith(("GPIO ", "TRIGFIRE ", "SETRELAY ", "CHG CfgMode", "FACTORYHOOK", "RESTART", "CHG RelayState"))])
+        if tr[0] != tr[1]:
+            k = next((j for j in range(min(len(tr[0]), len(tr[1]))) if tr[0][j] != tr[1][j]), min(len(tr[0]), len(tr[1])))
+            return [F.Finding("boot-dependent-behaviour", "trace differs from the one at boot=777 at event %d: %s vs %s" % (
+                k, tr[0][k] if k < len(tr[0]) else None, tr[1][k] if k < len(tr[1]) else None))]
+        return []
 
     def monitor(self, case, groups, rc, err):
         if rc != 0:
